@@ -1,9 +1,261 @@
-//! stub
-use super::Ctx;
-use crate::engine::evidence::{Case, Report, Verdict};
-pub fn run(_ctx: &Ctx, _rep: &mut Report) {
-    crate::engine::monitor::machinery_fail("not implemented");
+//! C10 - card words follow the documented bit layout; exactly 52 words are cards.
+//!
+//! Spaces: all 14 x 5 rank/suit enumeration pairs through `create` (blank members => blank); the 52 named
+//! constants; every deck position; all accessors on the 52 cards and on blank; all 2^32 words through both filters.
+//! Oracle: the layout formula of the README (oracle::cards).
+use super::consts::named_words;
+use super::{confirm, sample_json, Ctx};
+use crate::engine::enumerate::par_parts;
+use crate::engine::evidence::{Acc, Case, Report, Verdict};
+use crate::engine::monitor::{self, guard};
+use crate::oracle::cards::{deck, is_card_word, show_word, word_to_card, Card, PRIMES, RANK_CHARS, SUIT_GLYPHS, SUIT_LETTERS};
+use ckc_rs::deck::{Deck, POKER_DECK};
+use ckc_rs::{CKCNumber, CardNumber, CardRank, CardSuit, PokerCard};
+use std::time::Instant;
+use strum::IntoEnumIterator;
+
+fn rank_idx(r: CardRank) -> Option<u8> {
+    let v = r as u8; // ACE = 14 .. TWO = 2, BLANK = 0 (public discriminants)
+    if (2..=14).contains(&v) {
+        Some(v - 2)
+    } else {
+        None
+    }
 }
-pub fn judge(_case: &Case) -> Verdict {
-    Verdict::NotJudged("not implemented".into())
+fn suit_idx(s: CardSuit) -> Option<u8> {
+    let v = s as u8; // SPADES = 4 .. CLUBS = 1, BLANK = 0
+    if (1..=4).contains(&v) {
+        Some(v - 1)
+    } else {
+        None
+    }
+}
+
+fn accessor_report(w: u32) -> Vec<(&'static str, String)> {
+    vec![
+        ("get_card_rank", format!("{:?}", rank_idx(w.get_card_rank()))),
+        ("get_card_suit", format!("{:?}", suit_idx(w.get_card_suit()))),
+        ("get_rank_bit", format!("{:#x}", w.get_rank_bit())),
+        ("get_rank_flag", format!("{:#x}", w.get_rank_flag())),
+        ("get_rank_prime", format!("{}", w.get_rank_prime())),
+        ("get_suit_bit", format!("{:#x}", w.get_suit_bit())),
+        ("get_suit_flag", format!("{:#x}", w.get_suit_flag())),
+        ("get_rank_char", format!("{}", w.get_rank_char())),
+        ("get_suit_char", format!("{}", w.get_suit_char())),
+        ("get_suit_letter", format!("{}", w.get_suit_letter())),
+        ("is_blank", format!("{}", w.is_blank())),
+        ("as_u32", format!("{:#x}", w.as_u32())),
+        ("binary_signature(get_card_suit)", format!("{:#x}", w.get_card_suit().binary_signature())),
+        ("filter", format!("{:#x}", CardNumber::filter(w))),
+    ]
+}
+fn accessor_model(w: u32) -> Vec<(&'static str, String)> {
+    match word_to_card(w) {
+        Some(c) => {
+            let (r, s) = (c.rank() as u32, c.suit() as u32);
+            vec![
+                ("get_card_rank", format!("{:?}", Some(c.rank()))),
+                ("get_card_suit", format!("{:?}", Some(c.suit()))),
+                ("get_rank_bit", format!("{:#x}", 1u32 << r)),
+                ("get_rank_flag", format!("{:#x}", 1u32 << (16 + r))),
+                ("get_rank_prime", format!("{}", PRIMES[r as usize])),
+                ("get_suit_bit", format!("{:#x}", 1u32 << s)),
+                ("get_suit_flag", format!("{:#x}", 1u32 << (12 + s))),
+                ("get_rank_char", format!("{}", RANK_CHARS[r as usize])),
+                ("get_suit_char", format!("{}", SUIT_GLYPHS[s as usize])),
+                ("get_suit_letter", format!("{}", SUIT_LETTERS[s as usize])),
+                ("is_blank", "false".into()),
+                ("as_u32", format!("{:#x}", w)),
+                ("binary_signature(get_card_suit)", format!("{:#x}", 1u32 << (12 + s))),
+                ("filter", format!("{:#x}", w)),
+            ]
+        }
+        None => vec![
+            ("get_card_rank", "None".into()),
+            ("get_card_suit", "None".into()),
+            ("get_rank_bit", "0x0".into()),
+            ("get_rank_flag", "0x0".into()),
+            ("get_rank_prime", "0".into()),
+            ("get_suit_bit", "0x0".into()),
+            ("get_suit_flag", "0x0".into()),
+            ("get_rank_char", "_".into()),
+            ("get_suit_char", "_".into()),
+            ("get_suit_letter", "_".into()),
+            ("is_blank", "true".into()),
+            ("as_u32", "0x0".into()),
+            ("binary_signature(get_card_suit)", "0x0".into()),
+            ("filter", "0x0".into()),
+        ],
+    }
+}
+
+/// Case kinds: "create" [rank discriminant, suit discriminant]; "const" [index into the named constants];
+/// "deck" [index]; "accessors" [word: a card or blank]; "filter" [word].
+pub fn judge(case: &Case) -> Verdict {
+    match case.kind.as_str() {
+        "create" => {
+            let (rd, sd) = (case.words.first().copied().unwrap_or(99), case.words.get(1).copied().unwrap_or(99));
+            let r = CardRank::iter().find(|r| *r as u64 == rd);
+            let s = CardSuit::iter().find(|s| *s as u64 == sd);
+            let (r, s) = match (r, s) {
+                (Some(r), Some(s)) => (r, s),
+                _ => return Verdict::NotJudged("no such enumeration member".into()),
+            };
+            let exp = match (rank_idx(r), suit_idx(s)) {
+                (Some(ri), Some(si)) => Card::new(ri, si).word(),
+                _ => 0,
+            };
+            match guard(|| CKCNumber::create(r, s)) {
+                Err(p) => Verdict::Violated { class: "panic:create".into(), expected: format!("{:#x}", exp), observed: format!("panic: {}", p) },
+                Ok(w) if w != exp => Verdict::Violated { class: format!("create:{}", if exp == 0 { "blank-member-gives-a-word" } else { "wrong-word" }), expected: format!("create({:?}, {:?}) = {:#x} ({})", r, s, exp, show_word(exp)), observed: format!("{:#x} ({})", w, show_word(w)) },
+                Ok(_) => Verdict::Holds,
+            }
+        }
+        "const" => {
+            let t = named_words();
+            let i = case.words.first().copied().unwrap_or(99) as usize;
+            if i >= t.len() {
+                return Verdict::NotJudged("no such constant".into());
+            }
+            let (name, w, r, s) = t[i];
+            let exp = Card::new(r, s).word();
+            if w == exp {
+                Verdict::Holds
+            } else {
+                Verdict::Violated { class: "const:wrong-word".into(), expected: format!("CardNumber::{} = {:#x}", name, exp), observed: format!("{:#x}", w) }
+            }
+        }
+        "deck" => {
+            let i = case.words.first().copied().unwrap_or(99) as usize;
+            if i >= 52 {
+                return Verdict::NotJudged("deck positions 0..52".into());
+            }
+            let exp = deck()[i].word();
+            match guard(|| (POKER_DECK.arr()[i], Deck::get(i))) {
+                Err(p) => Verdict::Violated { class: "panic:deck".into(), expected: show_word(exp), observed: format!("panic: {}", p) },
+                Ok((a, b)) if a != exp || b != exp => Verdict::Violated { class: "deck:wrong-card-at-position".into(), expected: format!("deck[{}] = {}", i, show_word(exp)), observed: format!("arr {} get {}", show_word(a), show_word(b)) },
+                Ok(_) => Verdict::Holds,
+            }
+        }
+        "accessors" => {
+            let w = case.words.first().copied().unwrap_or(1) as u32;
+            if w != 0 && !is_card_word(w) {
+                return Verdict::NotJudged("accessors are specified on the 52 cards and blank".into());
+            }
+            let exp = accessor_model(w);
+            match guard(|| accessor_report(w)) {
+                Err(p) => Verdict::Violated { class: "panic:accessors".into(), expected: "field values".into(), observed: format!("panic: {}", p) },
+                Ok(got) => {
+                    for (g, e) in got.iter().zip(exp.iter()) {
+                        if g.1 != e.1 {
+                            return Verdict::Violated { class: format!("accessor:{}", g.0), expected: format!("{} of {} = {}", e.0, show_word(w), e.1), observed: g.1.clone() };
+                        }
+                    }
+                    Verdict::Holds
+                }
+            }
+        }
+        "filter" => super::c04::judge(case),
+        _ => Verdict::NotJudged("unknown kind".into()),
+    }
+}
+
+pub fn run(_ctx: &Ctx, rep: &mut Report) {
+    // create
+    {
+        let t0 = Instant::now();
+        let mut acc = Acc::new(1);
+        for r in CardRank::iter() {
+            for s in CardSuit::iter() {
+                acc.cases += 1;
+                acc.calls += 1;
+                if rank_idx(r).is_some() && suit_idx(s).is_some() {
+                    acc.nontrivial += 1;
+                }
+                if let Some(v) = confirm(judge, Case::new("create", &[r as u64, s as u64])) {
+                    acc.violate(v);
+                }
+            }
+        }
+        rep.guard("14 rank members x 5 suit members", acc.cases == 70 && acc.nontrivial == 52, format!("{} pairs, {} real", acc.cases, acc.nontrivial));
+        rep.sample(sample_json("create", "(ACE, SPADES)", &format!("{:#x}", CKCNumber::create(CardRank::ACE, CardSuit::SPADES))));
+        rep.sample(sample_json("create", "(BLANK, SPADES)", &format!("{:#x}", CKCNumber::create(CardRank::BLANK, CardSuit::SPADES))));
+        rep.add_space("create: all 14 x 5 enumeration pairs", &acc, t0, "");
+    }
+    // constants, deck, accessors
+    {
+        let t0 = Instant::now();
+        let mut acc = Acc::new(1);
+        for i in 0..52u64 {
+            for k in ["const", "deck"] {
+                acc.cases += 1;
+                acc.calls += 1;
+                acc.nontrivial += 1;
+                if let Some(v) = confirm(judge, Case::new(k, &[i])) {
+                    acc.violate(v);
+                }
+            }
+        }
+        let names: std::collections::BTreeSet<u32> = named_words().iter().map(|x| x.1).collect();
+        rep.guard("52 distinct named constants", names.len() == 52, format!("{}", names.len()));
+        for i in 0..53 {
+            let w = crate::oracle::cards::sigma53(i);
+            acc.cases += 1;
+            acc.calls += 14;
+            acc.nontrivial += 1;
+            if let Some(v) = confirm(judge, Case::w32("accessors", &[w])) {
+                acc.violate(v);
+            }
+        }
+        rep.sample(sample_json("accessors", "Q♦", &format!("{:?}", accessor_report(Card::new(10, 1).word()))));
+        rep.add_space("52 named constants, 52 deck positions, 14 accessors on 52 cards + blank", &acc, t0, "");
+    }
+    // filters, all 2^32 words
+    {
+        let t0 = Instant::now();
+        let kind = monitor::kind_id("filter");
+        let accs = par_parts(256, |p| {
+            let mut acc = Acc::new(1);
+            let lo = (p as u64) << 24;
+            monitor::beat(kind, &[lo]);
+            let mut cards = 0u64;
+            let mut nbad = 0u64;
+            let r = guard(|| {
+                for x in lo..lo + (1 << 24) {
+                    let w = x as u32;
+                    let is = is_card_word(w);
+                    cards += is as u64;
+                    let e = if is { w } else { 0 };
+                    if CardNumber::filter(w) != e || <u32 as PokerCard>::filter(w) != e {
+                        nbad += 1;
+                    }
+                }
+            });
+            acc.cases += 1 << 24;
+            acc.calls += 2 << 24;
+            acc.nontrivial += cards;
+            if r.is_err() || nbad > 0 {
+                let mut stored = 0;
+                for x in lo..lo + (1 << 24) {
+                    if stored < 8 {
+                        if let Some(v) = confirm(judge, Case::w32("filter", &[x as u32])) {
+                            acc.violate(v);
+                            stored += 1;
+                        }
+                    }
+                }
+                if stored == 0 {
+                    monitor::machinery_fail("C10 filter mismatch not reproduced");
+                }
+                acc.viol_count = acc.viol_count.max(nbad);
+            }
+            acc
+        });
+        let acc = Acc::merged(accs);
+        rep.guard("filter sweep met exactly 52 card words", acc.nontrivial == 52, format!("{}", acc.nontrivial));
+        rep.add_space("2^32 words: CardNumber::filter and PokerCard::filter", &acc, t0, "passes exactly the 52 layout words, everything else to blank");
+    }
+    rep.rule = "distinct enumeration pairs, constants, deck positions, (word, accessor set) and 32-bit words; non-trivial = the 52 real cards / words in each family".into();
+    rep.bound = "none: every family is enumerated completely".into();
+    rep.assume("the enum discriminants (ACE = 14 .. TWO = 2, SPADES = 4 .. CLUBS = 1, BLANK = 0) identify rank and suit members");
 }
